@@ -579,6 +579,12 @@ fn corpus_seg() -> Vec<(&'static str, Vec<Float>)> {
         ("corpus-subeps-axis", f([1., 0., 2., 1., -1.2246467991473532e-16, 5., 5., 5., 5., 6., 6., 5., 1., 0., 7.])),
         // F11: short edges at 17 degrees are "parallel"
         ("corpus-short", f([0., 0., 0., 0.05, 0., 0., 0., -0.01, 0., 0.04, 0.01, 0., 0.02, 0., 0.])),
+        // degenerate first segment (coverage of the Err exits of contains / contains_point: zero, sub-1e-6 and sub-epsilon length)
+        ("corpus-zero-length", f([1., 2., 3., 1., 2., 3., 0., 0., 0., 1., 0., 0., 1., 2., 3.])),
+        ("corpus-zero-length", f([1., 2., 3., 1., 2., 3., 0., 0., 0., 1., 0., 0., 2., 2., 3.])),
+        ("corpus-zero-length", f([0., 0., 0., 5e-7, 0., 0., 0., 0., 0., 1., 0., 0., 1e-7, 0., 0.])),
+        ("corpus-zero-length", f([0., 0., 0., 1e-16, 1e-16, 0., 5., 5., 5., 6., 6., 5., 5e-17, 5e-17, 0.])),
+        ("corpus-zero-length", f([0., 0., 0., 1e-16, 1e-16, 0., 5., 5., 5., 6., 6., 5., 0.5, 0.5, 0.])),
         // the unit tests' own fixtures
         ("corpus-unit", f([-1., 0., 0., 1., 0., 0., 0., 0., -1., 0., 0., 1., 0., 0., 0.])),
         ("corpus-unit", f([-1., 0., 1., 1., 0., 1., 0., 0., -1., 0., 0., 1., 0., 0., 1.])),
